@@ -50,6 +50,119 @@ def IR.canRemove (ir : IR) (blk : Block) (toProxy : Bool) (prev next : Option Na
   else if (ir.entry == some blk.id || ir.aux.elfFini == some blk.id) && !ir.isCodeBlockId next && !toProxy then false
   else true
 
+/-- where the references of a removed block go: (referent, at_end) -/
+def removeTarget (proxy next prev : Option Nat) : Referent × Bool :=
+  match proxy, next, prev with
+  | some p, _, _ => (.proxy p, false)
+  | none, some n, _ => (.block n, false)
+  | none, none, some p => (.block p, true)
+  | none, none, none => (.none, false)
+
+def IR.removeSyms (ir : IR) (bId : Nat) (target : Referent × Bool) : IR :=
+  { ir with syms := ir.syms.map (fun s =>
+      if s.ref == .block bId then { s with ref := target.1, atEnd := target.2 } else s) }
+
+/-- `_retarget_incoming_edges` -/
+def IR.removeInEdges (ir : IR) (blk : Block) (proxy next : Option Nat) (nextIsCode : Bool) : IR :=
+  if !blk.isCode || (ir.inEdges blk.id).isEmpty then ir
+  else
+    match proxy with
+    | some p => (ir.inEdges blk.id).foldl (fun ir e => ir.updateEdge e (updDst e (.proxy p))) ir
+    | none =>
+      if nextIsCode then
+        (ir.inEdges blk.id).foldl (fun ir e => ir.updateEdge e (updDst e (.block (next.getD 0)))) ir
+      else
+        let a' : IR := { ir with next := ir.next + 1, proxies := ir.proxies ++ [ir.next] }
+        (a'.inEdges blk.id).foldl (fun i e => i.updateEdge e (updDst e (.proxy ir.next))) a'
+
+/-- `_update_functions_aux_data` -/
+def IR.removeFunctions (ir : IR) (blk : Block) (nextArg : Option Nat) (nextArgIsCode : Bool) : IR :=
+  if !blk.isCode then ir
+  else match alookup blk.id ir.fbb with
+    | none => ir
+    | some f =>
+      let promote := ((alookup f ir.aux.funcEntries).getD []).contains blk.id && nextArgIsCode &&
+        ir.sameFunction blk.id (nextArg.getD 0)
+      let b' := if promote then
+          { ir with aux := { ir.aux with funcEntries := setAdd f (nextArg.getD 0) ir.aux.funcEntries } }
+        else ir
+      b'.removeFunctionBlock blk.id
+
+/-- `_update_module_entrypoints`, `_update_pe_safe_seh`, `_remove_alignment` -/
+def IR.removeEntrypoints (ir : IR) (blk : Block) (nextArg : Option Nat) (nextArgIsCode : Bool) : IR :=
+  let d : IR := if ir.entry == some blk.id then { ir with entry := nextArg } else ir
+  let d1 : IR := if d.aux.elfInit == some blk.id then { d with aux := { d.aux with elfInit := nextArg } } else d
+  let d2 : IR := if d1.aux.elfFini == some blk.id then { d1 with aux := { d1.aux with elfFini := nextArg } } else d1
+  let e : IR :=
+    if blk.isCode && d2.aux.peSafeSeh.contains blk.id then
+      let t := d2.aux.peSafeSeh.filter (· != blk.id)
+      { d2 with aux := { d2.aux with peSafeSeh := if nextArgIsCode then addUnique t (nextArg.getD 0) else t } }
+    else d2
+  { e with aux := { e.aux with alignment := adel blk.id e.aux.alignment } }
+
+/-- `_remove_outgoing_edges` -/
+def IR.removeOutEdges (ir : IR) (blk : Block) : IR :=
+  if !blk.isCode then ir
+  else
+    let ft := ir.fallTargets blk.id
+    (ir.outEdges blk.id).foldl (fun ir e =>
+      let i := if Edge.isCall e then ir.removeReturnEdgesFromCallee e ft else ir
+      { i with cfg := cfgDiscard i.cfg e }) ir
+
+/-- `_remove_aux_data_entries` -/
+def IR.removeAuxEntries (ir : IR) (blk : Block) : IR :=
+  { ir with aux := { ir.aux with
+      omaps := ir.aux.omaps.map (fun (name, entries) =>
+        (name, entries.filter (fun (el, _, _) => el != Elem.block blk.id))),
+      types := if blk.isCode then ir.aux.types else adel blk.id ir.aux.types,
+      encodings := if blk.isCode then ir.aux.encodings else adel blk.id ir.aux.encodings,
+      profile := if blk.isCode then adel blk.id ir.aux.profile else ir.aux.profile,
+      sccs := if blk.isCode then adel blk.id ir.aux.sccs else ir.aux.sccs } }
+
+/-- `_remove_cfi_directives` -/
+def IR.removeCfi (ir : IR) (bId : Nat) (cfi : List CfiDir) (prev next : Option Nat)
+    (prevIsCode nextIsCode : Bool) : IR :=
+  let cfi0 := cfiDelBlock ir.aux.cfi bId
+  let cfiT : List (Nat × Nat × List CfiDir) :=
+    if cfi.isEmpty then cfi0
+    else if nextIsCode then
+      let n := next.getD 0
+      if cfi0.any (fun (b', k', _) => b' == n && k' == 0) then
+        cfi0.map (fun (b', k', v) => if b' == n && k' == 0 then (b', k', cfi ++ v) else (b', k', v))
+      else cfi0 ++ [(n, 0, cfi)]
+    else if prevIsCode then
+      let p := prev.getD 0
+      let psize := match ir.block? p with | some pb => pb.size | none => 0
+      cfiExtend cfi0 p psize cfi
+    else cfi0 ++ [(bId, 0, cfi)]
+  { ir with aux := { ir.aux with cfi := cfiT } }
+
+/-- a kept, emptied code block falls through to a fresh proxy -/
+def IR.keepEmpty (ir : IR) (blk : Block) : IR :=
+  let ir5 := ir.setBlock { blk with size := 0 }
+  if blk.isCode then
+    { ir5 with next := ir5.next + 1, proxies := ir5.proxies ++ [ir5.next],
+               cfg := cfgAdd ir5.cfg { src := .block blk.id, dst := .proxy ir5.next, label := fallLabel } }
+  else ir5
+
+/-- the proxy for `retarget_to_proxy` is created up front (it joins module.proxies) -/
+def IR.withProxy (ir : IR) (toProxy : Bool) : IR :=
+  if toProxy then { ir with next := ir.next + 1, proxies := ir.proxies ++ [ir.next] } else ir
+
+/-- everything `remove_block` does before the block is unlinked or emptied -/
+def IR.removeStages (ir0 : IR) (blk : Block) (toProxy can : Bool) (proxy prev next : Option Nat) : IR :=
+  let cfi := ir0.requiredCfi blk
+  let nextIsCode := ir0.isCodeBlockId next
+  let prevIsCode := ir0.isCodeBlockId prev
+  let nextArg : Option Nat := if toProxy then none else next
+  let nextArgIsCode := if toProxy then false else nextIsCode
+  let ir1 : IR :=
+    if can then
+      ((((ir0.removeSyms blk.id (removeTarget proxy next prev)).removeInEdges blk proxy next nextIsCode).removeFunctions
+        blk nextArg nextArgIsCode).removeEntrypoints blk nextArg nextArgIsCode)
+    else ir0
+  ((ir1.removeOutEdges blk).removeAuxEntries blk).removeCfi blk.id cfi prev next prevIsCode nextIsCode
+
 /-- `remove_block(cache, block, retarget_to_proxy)`; returns whether the block left the IR -/
 def IR.removeBlock (ir : IR) (bId : Nat) (toProxy : Bool) : Except Err (IR × Bool) :=
   match ir.block? bId with
@@ -58,106 +171,14 @@ def IR.removeBlock (ir : IR) (bId : Nat) (toProxy : Bool) : Except Err (IR × Bo
     match ir.sectionOf blk with
     | none => .error (.assertion "block.section")
     | some sect =>
-      let (prev, next) := ir.adjacent blk
-      -- the proxy for `retarget_to_proxy` is created up front (it joins module.proxies)
-      let (ir0, proxy) : IR × Option Nat :=
-        if toProxy then ({ ir with next := ir.next + 1, proxies := ir.proxies ++ [ir.next] }, some ir.next)
-        else (ir, none)
-      let cfi := ir0.requiredCfi blk
-      let can := ir0.canRemove blk toProxy prev next cfi
-      let nextIsCode := ir0.isCodeBlockId next
-      let prevIsCode := ir0.isCodeBlockId prev
-      let ir1 : IR :=
-        if can then
-          -- symbols
-          let target : Referent × Bool :=
-            match proxy, next, prev with
-            | some p, _, _ => (.proxy p, false)
-            | none, some n, _ => (.block n, false)
-            | none, none, some p => (.block p, true)
-            | none, none, none => (.none, false)
-          let a : IR := { ir0 with syms := ir0.syms.map (fun s =>
-            if s.ref == .block bId then { s with ref := target.1, atEnd := target.2 } else s) }
-          -- incoming edges
-          let b : IR :=
-            if !blk.isCode || (a.inEdges bId).isEmpty then a
-            else
-              let (a', tgt) : IR × CfgNode :=
-                match proxy with
-                | some p => (a, .proxy p)
-                | none =>
-                  if nextIsCode then (a, .block (next.getD 0))
-                  else ({ a with next := a.next + 1, proxies := a.proxies ++ [a.next] }, .proxy a.next)
-              (a'.inEdges bId).foldl (fun ir e => ir.updateEdge e (updDst e tgt)) a'
-          let nextArg : Option Nat := if toProxy then none else next
-          let nextArgIsCode := if toProxy then false else nextIsCode
-          -- _update_functions_aux_data
-          let c : IR :=
-            if !blk.isCode then b
-            else match alookup bId b.fbb with
-              | none => b
-              | some f =>
-                let promote := ((alookup f b.aux.funcEntries).getD []).contains bId && nextArgIsCode &&
-                  b.sameFunction bId (nextArg.getD 0)
-                let b' := if promote then
-                    { b with aux := { b.aux with funcEntries := setAdd f (nextArg.getD 0) b.aux.funcEntries } }
-                  else b
-                b'.removeFunctionBlock bId
-          -- _update_module_entrypoints
-          let d : IR := if c.entry == some bId then { c with entry := nextArg } else c
-          let d1 : IR := if d.aux.elfInit == some bId then { d with aux := { d.aux with elfInit := nextArg } } else d
-          let d2 : IR := if d1.aux.elfFini == some bId then { d1 with aux := { d1.aux with elfFini := nextArg } } else d1
-          -- _update_pe_safe_seh
-          let e : IR :=
-            if blk.isCode && d2.aux.peSafeSeh.contains bId then
-              let t := d2.aux.peSafeSeh.filter (· != bId)
-              { d2 with aux := { d2.aux with peSafeSeh := if nextArgIsCode then addUnique t (nextArg.getD 0) else t } }
-            else d2
-          -- _remove_alignment
-          { e with aux := { e.aux with alignment := adel bId e.aux.alignment } }
-        else ir0
-      -- _remove_outgoing_edges
-      let ir2 : IR :=
-        if !blk.isCode then ir1
-        else
-          let ft := ir1.fallTargets bId
-          (ir1.outEdges bId).foldl (fun ir e =>
-            let ir' := if Edge.isCall e then ir.removeReturnEdgesFromCallee e ft else ir
-            { ir' with cfg := cfgDiscard ir'.cfg e }) ir1
-      -- _remove_aux_data_entries
-      let omaps := ir2.aux.omaps.map (fun (name, entries) =>
-        (name, entries.filter (fun (el, _, _) => el != Elem.block bId)))
-      let ir3 : IR := { ir2 with aux := { ir2.aux with
-        omaps := omaps,
-        types := if blk.isCode then ir2.aux.types else adel bId ir2.aux.types,
-        encodings := if blk.isCode then ir2.aux.encodings else adel bId ir2.aux.encodings,
-        profile := if blk.isCode then adel bId ir2.aux.profile else ir2.aux.profile,
-        sccs := if blk.isCode then adel bId ir2.aux.sccs else ir2.aux.sccs } }
-      -- _remove_cfi_directives
-      let cfi0 := cfiDelBlock ir3.aux.cfi bId
-      let cfiT : List (Nat × Nat × List CfiDir) :=
-        if cfi.isEmpty then cfi0
-        else if nextIsCode then
-          let n := next.getD 0
-          if cfi0.any (fun (b', k', _) => b' == n && k' == 0) then
-            cfi0.map (fun (b', k', v) => if b' == n && k' == 0 then (b', k', cfi ++ v) else (b', k', v))
-          else cfi0 ++ [(n, 0, cfi)]
-        else if prevIsCode then
-          let p := prev.getD 0
-          let psize := match ir3.block? p with | some pb => pb.size | none => 0
-          cfiExtend cfi0 p psize cfi
-        else cfi0 ++ [(bId, 0, cfi)]
-      let ir4 : IR := { ir3 with aux := { ir3.aux with cfi := cfiT } }
-      if can then
-        let ir5 := ir4.orderRemove sect bId
-        .ok (ir5.setBlock { blk with bi := none }, true)
-      else
-        let ir5 := ir4.setBlock { blk with size := 0 }
-        if blk.isCode then
-          let p := ir5.next
-          .ok ({ ir5 with next := p + 1, proxies := ir5.proxies ++ [p],
-                          cfg := cfgAdd ir5.cfg { src := .block bId, dst := .proxy p, label := fallLabel } }, false)
-        else .ok (ir5, false)
+      let prev := (ir.adjacent blk).1
+      let next := (ir.adjacent blk).2
+      let ir0 := ir.withProxy toProxy
+      let proxy : Option Nat := if toProxy then some ir.next else none
+      let can := ir0.canRemove blk toProxy prev next (ir0.requiredCfi blk)
+      let ir4 := ir0.removeStages blk toProxy can proxy prev next
+      if can then .ok ((ir4.orderRemove sect blk.id).setBlock { blk with bi := none }, true)
+      else .ok (ir4.keepEmpty blk, false)
 
 /-! ### the assembled patch -/
 
@@ -224,55 +245,65 @@ def IR.matchPatchReturnEdges (ir : IR) (bId : Nat) (pcfg : List Edge) (newProxie
           (targets.foldl (fun c t => cfgAdd c { src := e.src, dst := t, label := retLabel }) cfg1, px))
           (pcfg, newProxies)
 
+def IR.sizeOr1 (ir : IR) (b : Nat) : Nat := match ir.block? b with | some blk => blk.size | none => 1
+
+/-- one pass of the `for … pairwise` loop of `_cleanup_modified_blocks`: the first change
+wins and restarts the scan (`some blocks'`); `none` = nothing changed -/
+def IR.cleanupPass (ir : IR) (pred : Nat) (rest : List Nat) (done : List Nat) :
+    Except Err (IR × Option (List Nat)) :=
+  match rest with
+  | [] => .ok (ir, none)
+  | b :: rest' =>
+    match ir.joinBlocks pred b with
+    | .ok ir' => .ok (ir', some (done ++ [pred] ++ rest'))
+    | .error (.unjoinable _) =>
+      if ir.sizeOr1 b == 0 then
+        match ir.removeBlock b false with
+        | .error e => .error e
+        | .ok (ir', true) => .ok (ir', some (done ++ [pred] ++ rest'))
+        | .ok (ir', false) => IR.cleanupPass ir' b rest' (done ++ [pred])
+      else IR.cleanupPass ir b rest' (done ++ [pred])
+    | .error e => .error e
+
+/-- the `while True` loop: run passes until one changes nothing -/
+def IR.cleanupLoop (fuel : Nat) (ir : IR) (blocks : List Nat) : Except Err (IR × List Nat) :=
+  match fuel with
+  | 0 => .ok (ir, blocks)
+  | fuel + 1 =>
+    match blocks with
+    | [] => .ok (ir, blocks)
+    | b0 :: rest =>
+      match ir.cleanupPass b0 rest [] with
+      | .error e => .error e
+      | .ok (ir', none) => .ok (ir', blocks)
+      | .ok (ir', some blocks') => IR.cleanupLoop fuel ir' blocks'
+
+def IR.sizeOf (ir : IR) (b : Nat) : Nat := match ir.block? b with | some blk => blk.size | none => 0
+
+/-- "This allows inserting a code block at offset 0 of a data block." -/
+def IR.cleanupFirst (ir : IR) (bl : List Nat) : Except Err (IR × List Nat) :=
+  match bl with
+  | [] => .ok (ir, bl)
+  | first :: tl =>
+    if ir.sizeOr1 first == 0 then
+      match ir.removeBlock first false with
+      | .error e => .error e
+      | .ok (ir2, true) => .ok (ir2, tl)
+      | .ok (ir2, false) => .ok (ir2, bl)
+    else .ok (ir, bl)
+
 /-- `_cleanup_modified_blocks(cache, blocks)`: returns the last surviving block -/
 def IR.cleanup (ir : IR) (blocks : List Nat) : Except Err (IR × Nat) :=
-  -- one pass of the `for … pairwise` loop: first change wins
-  let rec pass (ir : IR) (pred : Nat) (rest : List Nat) (done : List Nat) :
-      Except Err (Option (IR × List Nat)) :=
-    match rest with
-    | [] => .ok none
-    | b :: rest' =>
-      match ir.joinBlocks pred b with
-      | .ok ir' => .ok (some (ir', done ++ [pred] ++ rest'))
-      | .error (.unjoinable _) =>
-        let sz := match ir.block? b with | some blk => blk.size | none => 1
-        if sz == 0 then
-          match ir.removeBlock b false with
-          | .error e => .error e
-          | .ok (ir', true) => .ok (some (ir', done ++ [pred] ++ rest'))
-          | .ok (ir', false) => pass ir' b rest' (done ++ [pred])
-        else pass ir b rest' (done ++ [pred])
-      | .error e => .error e
-  let rec loop (fuel : Nat) (ir : IR) (blocks : List Nat) : Except Err (IR × List Nat) :=
-    match fuel with
-    | 0 => .ok (ir, blocks)
-    | fuel + 1 =>
-      match blocks with
-      | [] => .ok (ir, blocks)
-      | b0 :: rest =>
-        match pass ir b0 rest [] with
-        | .error e => .error e
-        | .ok none => .ok (ir, blocks)
-        | .ok (some (ir', blocks')) => loop fuel ir' blocks'
-  if !(blocks.any (fun b => match ir.block? b with | some blk => blk.size != 0 | none => false)) then
+  if !(blocks.any (fun b => ir.sizeOf b != 0)) then
     .error (.assertion "need at least one block with content")
   else
-    match loop (blocks.length + 1) ir blocks with
+    match ir.cleanupLoop (blocks.length + 1) blocks with
     | .error e => .error e
     | .ok (ir1, bl) =>
-      let first := bl.head?.getD 0
-      let fsz := match ir1.block? first with | some blk => blk.size | none => 1
-      let r : Except Err (IR × List Nat) :=
-        if fsz == 0 then
-          match ir1.removeBlock first false with
-          | .error e => .error e
-          | .ok (ir2, true) => .ok (ir2, bl.drop 1)
-          | .ok (ir2, false) => .ok (ir2, bl)
-        else .ok (ir1, bl)
-      match r with
+      match ir1.cleanupFirst bl with
       | .error e => .error e
       | .ok (ir2, bl2) =>
-        if bl2.all (fun b => match ir2.block? b with | some blk => blk.size != 0 | none => false) then
+        if bl2.all (fun b => ir2.sizeOf b != 0) then
           match bl2.getLast? with
           | some l => .ok (ir2, l)
           | none => .error (.assertion "no block left")
@@ -304,15 +335,14 @@ def IR.delete (ir : IR) (bId offset length : Nat) (toProxy : Bool) : Except Err 
                 | .error e => .error e
                 | .ok (ir5, last) => .ok (ir5, some last)
         else
-          let (prev, next) := ir.adjacent blk
+          let prev := (ir.adjacent blk).1
+          let next := (ir.adjacent blk).2
           match ir.removeBlock bId toProxy with
           | .error e => .error e
           | .ok (ir1, deleted) =>
             let ir2 := ir1.editInterval biId (blk.off + offset) length [] [bId]
-            let prevEmpty := match prev with
-              | some p => (match ir2.block? p with | some pb => pb.size == 0 | none => false)
-              | none => false
-            if deleted && prev.isSome && next.isSome && prevEmpty && !toProxy then
+            -- "see if that opens up an opportunity to delete a previous zero-sized block"
+            if deleted && prev.isSome && next.isSome && ir2.sizeOr1 (prev.getD 0) == 0 && !toProxy then
               match ir2.removeBlock (prev.getD 0) false with
               | .error e => .error e
               | .ok (ir3, _) => .ok (ir3, none)
@@ -320,12 +350,12 @@ def IR.delete (ir : IR) (bId offset length : Nat) (toProxy : Bool) : Except Err 
 
 /-- `_add_other_section_contents` (for one non-text section of the patch) -/
 def IR.addOtherSection (ir : IR) (p : Patch) (s : PatchSect) (sectId biId : Nat) : Except Err (IR × List Sym) :=
-  let lastEmpty := match s.blocks.getLast? with | some b => b.size == 0 | none => false
+  let lastEmpty := (s.blocks.getLast?.map (·.size == 0)).getD false
   let blocks := if lastEmpty then s.blocks.dropLast else s.blocks
   let lastId := (s.blocks.getLast?.map (·.id)).getD 0
   let prevId := ((s.blocks.dropLast).getLast?.map (·.id)).getD 0
   if lastEmpty && (p.cfg.any (fun e => e.dst == .block lastId)) &&
-      (match s.blocks.getLast? with | some b => b.isCode | none => false) then .error .unsupported
+      (s.blocks.getLast?.map (·.isCode)).getD false then .error .unsupported
   else if lastEmpty && s.blocks.length == 1 && p.syms.any (fun y => y.ref == .block lastId) then .error .unsupported
   else
     let syms := if lastEmpty then p.syms.map (fun y =>
@@ -344,6 +374,96 @@ def IR.addOtherSection (ir : IR) (p : Patch) (s : PatchSect) (sectId biId : Nat)
     let aux1 : Aux := { ir.aux with omaps := omaps, alignment := al, encodings := en }
     let ir1 : IR := { ir with intervals := ir.intervals ++ [bi], blocks := ir.blocks ++ newBlocks, aux := aux1 }
     .ok (ir1.orderAppend sectId (newBlocks.map (·.id)), syms)
+
+/-- split at the insertion point and cut out the replaced range; returns the state and
+the block holding what follows the insertion -/
+def IR.insertSplit (ir : IR) (bId offset repl : Nat) : Except Err (IR × Nat × Bool) :=
+  match ir.splitBlock bId offset with
+  | .error e => .error e
+  | .ok (ir1, end0, added) =>
+    if repl != 0 then
+      match ir1.splitBlock end0 repl with
+      | .error e => .error e
+      | .ok (i2, end2, _) =>
+        match i2.removeBlock end0 false with
+        | .error e => .error e
+        | .ok (i3, _) => .ok (i3, end2, added)
+    else .ok (ir1, end0, added)
+
+/-- stitch the patch into the CFG: block → patch and patch → remainder -/
+def IR.insertStitch (ir : IR) (tb : List Block) (bId endB : Nat) (added : Bool) : IR :=
+  let firstB := (tb.head?).getD default
+  let lastB := (tb.getLast?).getD default
+  -- the patch blocks must be known to the CFG helpers: add them first as detached nodes
+  let i2 : IR := { ir with blocks := ir.blocks ++ tb.map (fun b => { b with bi := none }) }
+  let i3 := if added then i2.updateFallthrough bId firstB.id else i2
+  if i3.isCodeBlockId (some endB) && lastB.isCode then i3.updateFallthrough lastB.id endB else i3
+
+/-- the patch's blocks, rebased onto the byte interval -/
+def IR.placePatchBlocks (ir : IR) (tb : List Block) (biId base : Nat) : IR :=
+  let placed := tb.map (fun b => { b with bi := some biId, off := base + b.off })
+  { ir with blocks := ir.blocks.map (fun b =>
+      match placed.find? (·.id == b.id) with
+      | some pb => pb
+      | none => b) }
+
+/-- the patch's symbolic expressions, rebased -/
+def IR.addPatchExprs (ir : IR) (biId base : Nat) (exprs : List (Nat × SymExpr)) : IR :=
+  match ir.interval? biId with
+  | none => ir
+  | some bi => ir.setInterval { bi with symExprs := exprs.foldl (fun m (k, v) => aset (base + k) v m) bi.symExprs }
+
+/-- CFG edges, symbols, proxies and sections of the patch -/
+def IR.addPatchNodes (ir : IR) (p : Patch) (pcfg : List Edge) (pproxies : List Nat) : IR :=
+  { ir with cfg := pcfg.foldl cfgAdd ir.cfg, syms := ir.syms ++ p.syms, proxies := pproxies.foldl addUnique ir.proxies,
+            sections := ir.sections ++ p.newSections }
+
+def addSizes (omaps : List (String × List (Elem × Nat × String))) (sizes : List (Elem × Nat × String)) :
+    List (String × List (Elem × Nat × String)) :=
+  if omaps.any (fun (n, _) => n == "symbolicExpressionSizes") then
+    omaps.map (fun (n, es) =>
+      if n == "symbolicExpressionSizes" then
+        (n, sizes.foldl (fun acc (el, k, v) =>
+          acc.filter (fun (el', k', _) => !(el' == el && k' == k)) ++ [(el, k, v)]) es)
+      else (n, es))
+  else omaps ++ [("symbolicExpressionSizes", sizes)]
+
+/-- aux data of the patch: alignment, encodings, CFI, expression sizes, ELF symbol info -/
+def IR.addPatchAux (ir : IR) (p : Patch) (biId base : Nat) : IR :=
+  let sizes := p.text.symExprSizes.map (fun (k, v) => (Elem.interval biId, base + k, toString v))
+  let cfi := p.cfi.foldl (fun acc (b, k, v) =>
+    acc.filter (fun (b', k', _) => !(b' == b && k' == k)) ++ [(b, k, v)]) ir.aux.cfi
+  { ir with aux := { ir.aux with
+      alignment := p.text.alignment.foldl (fun a (k, v) => aset k v a) ir.aux.alignment,
+      encodings := p.text.blockTypes.foldl (fun a (k, v) => aset k v a) ir.aux.encodings,
+      cfi := cfi, omaps := addSizes ir.aux.omaps sizes,
+      elfSymInfo := p.elfSymInfo.foldl (fun a (k, v) => aset k v a) ir.aux.elfSymInfo } }
+
+/-- code blocks of the patch join the function of the block they were inserted into -/
+def IR.addPatchFunctions (ir : IR) (blk : Block) (tb : List Block) : IR :=
+  if blk.isCode then
+    match alookup blk.id ir.fbb with
+    | some f => tb.foldl (fun ir b => if b.isCode then ir.addFunctionBlock b.id f else ir) ir
+    | none => ir
+  else ir
+
+/-- contents the patch puts into other sections -/
+def IR.addOthers (ir : IR) (p : Patch) : Except Err IR :=
+  p.others.foldl (fun (acc : Except Err IR) (s, sectId, biId') =>
+    match acc with
+    | .error e => .error e
+    | .ok i =>
+      match i.addOtherSection { p with syms := i.syms.filter (fun y => p.syms.any (·.id == y.id)) } s sectId biId' with
+      | .error e => .error e
+      | .ok (i', newSyms) =>
+        .ok { i' with syms := i'.syms.map (fun y =>
+          match newSyms.find? (·.id == y.id) with
+          | some ny => ny
+          | none => y) }) (.ok ir)
+
+def IR.bumpNext (ir : IR) (p : Patch) : IR :=
+  let maxId := ((p.text.blocks.map (·.id)) ++ p.proxies ++ p.syms.map (·.id)).foldl max ir.next
+  { ir with next := max ir.next (maxId + 1) }
 
 /-- `insert(cache, block, offset, replacement_length, code)` -/
 def IR.insert (ir : IR) (bId offset repl : Nat) (p : Patch) : Except Err (IR × Nat) :=
@@ -364,92 +484,22 @@ def IR.insert (ir : IR) (bId offset repl : Nat) (p : Patch) : Except Err (IR × 
             .error (.assertion "the last block cannot have outgoing cfg edges")
           else
             -- return edges
-            let (ir0, pcfg0) := ir.addReturnEdgesForPatchCalls p.cfg
-            let (pcfg, pproxies) := if blk.isCode then ir0.matchPatchReturnEdges bId pcfg0 p.proxies
-                                    else (pcfg0, p.proxies)
-            match ir0.splitBlock bId offset with
+            let r0 := ir.addReturnEdgesForPatchCalls p.cfg
+            let pc : List Edge × List Nat :=
+              if blk.isCode then r0.1.matchPatchReturnEdges bId r0.2 p.proxies else (r0.2, p.proxies)
+            match r0.1.insertSplit bId offset repl with
             | .error e => .error e
-            | .ok (ir1, end0, added) =>
-              let r : Except Err (IR × Nat) :=
-                if repl != 0 then
-                  match ir1.splitBlock end0 repl with
-                  | .error e => .error e
-                  | .ok (i2, end2, _) =>
-                    match i2.removeBlock end0 false with
-                    | .error e => .error e
-                    | .ok (i3, _) => .ok (i3, end2)
-                else .ok (ir1, end0)
-              match r with
-              | .error e => .error e
-              | .ok (ir2, endB) =>
-                let firstB := (tb.head?).getD default
-                -- the patch blocks must be known to the CFG helpers: add them first as detached nodes
-                let ir2' : IR := { ir2 with blocks := ir2.blocks ++ tb.map (fun b => { b with bi := none }) }
-                let ir3 := if added then ir2'.updateFallthrough bId firstB.id else ir2'
-                let endIsCode := ir3.isCodeBlockId (some endB)
-                let ir4 := if endIsCode && lastB.isCode then ir3.updateFallthrough lastB.id endB else ir3
-                -- bytes
-                let ir5 := ir4.editInterval biId (blk.off + offset) repl p.text.data [bId]
-                -- blocks of the patch
-                let base := blk.off + offset
-                let placed := tb.map (fun b => { b with bi := some biId, off := base + b.off })
-                let ir6 : IR := { ir5 with blocks := ir5.blocks.map (fun b =>
-                  match placed.find? (·.id == b.id) with
-                  | some pb => pb
-                  | none => b) }
-                let ir7 : IR := match ir6.interval? biId with
-                  | none => ir6
-                  | some bi =>
-                    let se := p.text.symExprs.foldl (fun m (k, v) => aset (base + k) v m) bi.symExprs
-                    ir6.setInterval { bi with symExprs := se }
-                let ir8 := ir7.orderInsertAfter sect bId (tb.map (·.id))
-                let cfg9 := pcfg.foldl cfgAdd ir8.cfg
-                let px9 := pproxies.foldl addUnique ir8.proxies
-                let ir9 : IR := { ir8 with cfg := cfg9, syms := ir8.syms ++ p.syms, proxies := px9,
-                                           sections := ir8.sections ++ p.newSections }
-                let sizes := p.text.symExprSizes.map (fun (k, v) => (Elem.interval biId, base + k, toString v))
-                let omaps :=
-                  if ir9.aux.omaps.any (fun (n, _) => n == "symbolicExpressionSizes") then
-                    ir9.aux.omaps.map (fun (n, es) =>
-                      if n == "symbolicExpressionSizes" then
-                        (n, sizes.foldl (fun acc (el, k, v) =>
-                          acc.filter (fun (el', k', _) => !(el' == el && k' == k)) ++ [(el, k, v)]) es)
-                      else (n, es))
-                  else ir9.aux.omaps ++ [("symbolicExpressionSizes", sizes)]
-                let cfi := p.cfi.foldl (fun acc (b, k, v) =>
-                  acc.filter (fun (b', k', _) => !(b' == b && k' == k)) ++ [(b, k, v)]) ir9.aux.cfi
-                if p.hasFuncSym then .error .unsupported
-                else
-                  let al10 := p.text.alignment.foldl (fun a (k, v) => aset k v a) ir9.aux.alignment
-                  let en10 := p.text.blockTypes.foldl (fun a (k, v) => aset k v a) ir9.aux.encodings
-                  let es10 := p.elfSymInfo.foldl (fun a (k, v) => aset k v a) ir9.aux.elfSymInfo
-                  let aux10 : Aux := { ir9.aux with alignment := al10, encodings := en10, cfi := cfi,
-                                                    omaps := omaps, elfSymInfo := es10 }
-                  let ir10 : IR := { ir9 with aux := aux10 }
-                  let ir11 : IR :=
-                    if blk.isCode then
-                      match alookup bId ir10.fbb with
-                      | some f => tb.foldl (fun ir b => if b.isCode then ir.addFunctionBlock b.id f else ir) ir10
-                      | none => ir10
-                    else ir10
-                  -- other sections
-                  let r2 : Except Err IR := p.others.foldl (fun (acc : Except Err IR) (s, sectId, biId') =>
-                    match acc with
-                    | .error e => .error e
-                    | .ok i =>
-                      match i.addOtherSection { p with syms := i.syms.filter (fun y => p.syms.any (·.id == y.id)) } s sectId biId' with
-                      | .error e => .error e
-                      | .ok (i', newSyms) =>
-                        .ok { i' with syms := i'.syms.map (fun y =>
-                          match newSyms.find? (·.id == y.id) with
-                          | some ny => ny
-                          | none => y) }) (.ok ir11)
-                  match r2 with
-                  | .error e => .error e
-                  | .ok ir12 =>
-                    let maxId := (tb.map (·.id) ++ p.proxies ++ p.syms.map (·.id)).foldl max ir12.next
-                    let ir13 : IR := { ir12 with next := max ir12.next (maxId + 1) }
-                    ir13.cleanup ([bId] ++ tb.map (·.id) ++ [endB])
+            | .ok (ir2, endB, added) =>
+              let base := blk.off + offset
+              let ir5 := (ir2.insertStitch tb bId endB added).editInterval biId base repl p.text.data [bId]
+              let ir8 := (((ir5.placePatchBlocks tb biId base).addPatchExprs biId base p.text.symExprs).orderInsertAfter
+                sect bId (tb.map (·.id)))
+              let ir9 := ir8.addPatchNodes p pc.1 pc.2
+              if p.hasFuncSym then .error .unsupported
+              else
+                match ((ir9.addPatchAux p biId base).addPatchFunctions blk tb).addOthers p with
+                | .error e => .error e
+                | .ok ir12 => (ir12.bumpNext p).cleanup ([bId] ++ tb.map (·.id) ++ [endB])
       | _, _ => .error (.assertion "block.byte_interval and block.section")
 
 end GtirbVerif.IR
